@@ -17,12 +17,18 @@ def rname(rng, n):
 def fiin_cases(rng, tier, n0):
     out = []
     n = n0
-    # every content length 0..300, one file per case, name lengths cycle 1 / 8 / 63
+    # every content length 0..300, one file per case, name lengths cycle 1 / 8 / 63 / 64 (64 fills the field: no terminator)
     for ln in range(0, 301):
-        nm = rname(rng, [1, 8, 63][ln % 3]).replace(".", "x") + ""
+        nm = rname(rng, [1, 8, 63, 64][ln % 4]).replace(".", "x") + ""
         content = [rng.randrange(256) for _ in range(ln)]
         out.append(Case([{"op": "meta.fiin", "case": n, "files": [{"name": B(nm), "content": content}]}],
                         desc={"fiin": [{"name": nm, "len": ln}]}, key="fiin-len-%d" % ln))
+        n += 1
+    # every name length the 64-byte field can hold
+    for nl in range(1, 65):
+        nm = rname(rng, nl).replace(".", "x")
+        out.append(Case([{"op": "meta.fiin", "case": n, "files": [{"name": B(nm), "content": [rng.randrange(256) for _ in range(nl % 7)]}]}],
+                        desc={"fiin": [{"name": nm, "len": nl % 7}]}, key="fiin-name-%d" % nl))
         n += 1
     # padding edges around 1 KiB and 64 KiB, multi-file sets
     edges = [55, 56, 63, 64, 119, 120]
@@ -37,7 +43,7 @@ def fiin_cases(rng, tier, n0):
     for k in ([0, 2, 6] if tier == "quick" else [0, 1, 2, 3, 4, 5, 6] * 6):
         files, seen = [], set()
         for _ in range(k):
-            nm = rname(rng, rng.choice([1, 8, 63]))
+            nm = rname(rng, rng.choice([1, 8, 63, 64]))
             if nm in seen or nm in (".", ".."):
                 continue
             seen.add(nm)
@@ -142,7 +148,7 @@ def check(run):
     fc, n = fiin_cases(rng, run.tier, 0)
     pc, n = plist_cases(rng, run.tier, n)
     run.rule = ("file sets with every content length 0..300, SHA-1 padding edges around 1 KiB / 64 KiB (thorough: two files "
-                "of 1-2 MiB), names of 1/8/63 bytes, 0..6 files; tables rendered by gen/meta.py parsed by the library; "
+                "of 1-2 MiB), names of every length 1..64 bytes, 0..6 files; tables rendered by gen/meta.py parsed by the library; "
                 "patch lists (boot/game, 0..5 entries, sizes up to 2^62, 1..4 hashes) rendered by the library and by "
                 "gen/meta.py and parsed back; distinct by script, non-trivial when at least one file / entry is present")
     hashlib_agrees_with_spec = [Case([{"op": "meta.fiin", "case": n + 1, "files": [
